@@ -1,34 +1,36 @@
 (* Comparison functions used by generated case files of C11.
 
-   One case = one process run: through `mage` (front-end flags, caller's environment, layout) or of
-   the compiled binary started directly (its own flags, caller's environment).  The external
-   functions of Model/Flags.v get their ACTUAL values per case, as tables computed outside mage:
-   time.ParseDuration / Duration.String (Go standard library, harness/c11conv) and the operating
-   system's resolution of a directory string relative to the directory mage was started in. *)
+   One [case] = one process run: `mage WORDS` (caller's environment, layout) or the compiled binary started with
+   WORDS.  The model gets the command line AS WORDS (Model/FlagPkg.v parses them, Model/Flags.v does the rest).
+   One [pcase] = one word list given to a REAL flag.FlagSet carrying mage's 17 / the generated main's 4 flag
+   definitions (harness/c11conv): verdict, values of the flags that were set, leftover words - against [cl_parse].
+   The external functions get their ACTUAL values per case, as tables computed outside mage:
+   time.ParseDuration / Duration.String (Go standard library, harness/c11conv) and the operating system's
+   resolution of a directory string relative to the directory mage was started in. *)
 From Mage Require Import Base.Strs Model.Flags.
 
 Inductive route := ViaMage | ViaBinary.
+Inductive omode := ORejected | OMode (m : mode).      (* flag error: status 2, usage, nothing runs / what the program did *)
 
 Record obs := {
-  o_mode : mode;                       (* what the program did with its word: listed / help / ran it *)
-  o_verbose_log : bool;                (* the generated main announced the target (args.Verbose) *)
+  o_mode : omode;
+  o_verbose_log : bool;                (* the generated main is verbose (the std logger is live) *)
   o_verbose : bool; o_debug : bool; o_gocmd : string;      (* mg.Verbose() mg.Debug() mg.GoCmd() in the target *)
   o_timeout : Z;                       (* deadline of the target's context, ns; 0 = none; < 0 = already expired *)
   o_cwd : string;                      (* resolved working directory of the target (ViaMage) *)
   o_build : string;                    (* resolved directory the magefiles were taken from (ViaMage) *)
   o_env : list (string * option string);   (* the target's environment at the observed keys *)
-  o_stdin : option stream; o_stdout : option stream; o_stderr : option stream
+  o_stdin : option stream; o_stdout : option stream; o_stderr : option stream;
     (* which of the caller's streams the target's stream turned out to be; None = none of them *)
+  o_words : list string                (* the words the dispatcher acted on: the target that ran and its argument *)
 }.
 
 Record case := {
   c_route : route;
-  c_flags : flags;                     (* ViaMage *)
-  c_cflags : cflags;                   (* ViaBinary *)
+  c_words : list string;               (* the command line of the process *)
   c_env : env;                         (* the caller's environment *)
   c_layout : layout;
-  c_nargs : nat;
-  c_default : bool;                    (* the magefile declares a default target *)
+  c_default : string;                  (* the magefile's default target ("" = none) *)
   c_durs : list (string * option Z);   (* time.ParseDuration *)
   c_durstr : list (Z * string);        (* time.Duration.String *)
   c_bools : list (string * option bool);   (* strconv.ParseBool, to pin the transcription parse_bool *)
@@ -44,35 +46,57 @@ Fixpoint zassoc (l : list (Z * string)) (k : Z) : string :=
 
 Definition jn (a b : string) : string := (a ++ "/" ++ b)%string.
 
+Definition blank (m : omode) : obs :=
+  {| o_mode := m; o_verbose_log := false; o_verbose := false; o_debug := false; o_gocmd := ""; o_timeout := 0%Z;
+     o_cwd := ""; o_build := ""; o_env := []; o_stdin := None; o_stdout := None; o_stderr := None; o_words := [] |}.
+
 Definition model_obs (c : case) : obs :=
   let parse_dur := fun s => match sassoc (c_durs c) s with Some r => r | None => None end in
   let dur_string := zassoc (c_durstr c) in
   let resolve := fun s => match sassoc (c_resolve c) s with Some p => p | None => "?" end in
+  let has_default := negb (String.eqb (c_default c) "") in
+  (* no word: the default target's own name is what runs *)
+  let acted := fun ws : list string => match ws with [] => if has_default then [c_default c] else [] | _ => ws end in
   match c_route c with
   | ViaMage =>
-      let '(inv, cenv, dir) := front_end dur_string jn true (c_layout c) (c_flags c) (c_env c) in
-      let args := gm_parse parse_dur no_cflags cenv in
-      let tenv := gm_target_env args cenv in
-      {| o_mode := gm_mode args (c_nargs c) (c_default c) cenv; o_verbose_log := a_verbose args;
-         o_verbose := mg_verbose tenv; o_debug := mg_debug tenv; o_gocmd := mg_gocmd tenv;
-         o_timeout := a_timeout args; o_cwd := resolve dir; o_build := resolve (i_dir inv);
-         o_env := map (fun k => (k, lookup k tenv)) (c_keys c);
-         o_stdin := Some (w_stdin (run_compiled_wiring inv (c_nargs c)));
-         o_stdout := Some (w_stdout (run_compiled_wiring inv (c_nargs c)));
-         o_stderr := Some (w_stderr (run_compiled_wiring inv (c_nargs c))) |}
+      match mage_cmdline parse_dur dur_string jn true (c_layout c) (c_words c) (c_env c) with
+      | Rejected _ => blank ORejected
+      | UsageShown => blank (OMode MUsage)
+      | Runs args tenv ws =>
+          let '(cwd, build) := mage_cmdline_dirs parse_dur dur_string jn (c_layout c) (c_words c) (c_env c) in
+          let f := flags_of (match cl_parse parse_dur front_spec (c_words c) with POk a _ => a | PBad a => a | PHelp => [] end) in
+          let inv := fst (fst (front_end dur_string jn true (c_layout c) f (c_env c))) in
+          let w := run_compiled_wiring inv (length ws) in
+          {| o_mode := OMode (gm_mode args (length ws) has_default tenv); o_verbose_log := a_verbose args;
+             o_verbose := mg_verbose tenv; o_debug := mg_debug tenv; o_gocmd := mg_gocmd tenv;
+             o_timeout := a_timeout args; o_cwd := resolve cwd; o_build := resolve build;
+             o_env := map (fun k => (k, lookup k tenv)) (c_keys c);
+             o_stdin := Some (w_stdin w); o_stdout := Some (w_stdout w); o_stderr := Some (w_stderr w);
+             o_words := acted ws |}
+      end
   | ViaBinary =>
-      let args := gm_parse parse_dur (c_cflags c) (c_env c) in
-      let tenv := gm_target_env args (c_env c) in
-      {| o_mode := gm_mode args (c_nargs c) (c_default c) (c_env c); o_verbose_log := a_verbose args;
-         o_verbose := mg_verbose tenv; o_debug := mg_debug tenv; o_gocmd := mg_gocmd tenv;
-         o_timeout := a_timeout args; o_cwd := ""; o_build := "";
-         o_env := map (fun k => (k, lookup k tenv)) (c_keys c);
-         o_stdin := Some CallerStdin; o_stdout := Some CallerStdout; o_stderr := Some CallerStderr |}
+      match binary_cmdline parse_dur (c_words c) (c_env c) with
+      | Rejected _ => blank ORejected
+      | UsageShown => blank (OMode MUsage)
+      | Runs args tenv ws =>
+          {| o_mode := OMode (gm_mode args (length ws) has_default tenv); o_verbose_log := a_verbose args;
+             o_verbose := mg_verbose tenv; o_debug := mg_debug tenv; o_gocmd := mg_gocmd tenv;
+             o_timeout := a_timeout args; o_cwd := ""; o_build := "";
+             o_env := map (fun k => (k, lookup k tenv)) (c_keys c);
+             o_stdin := Some CallerStdin; o_stdout := Some CallerStdout; o_stderr := Some CallerStderr;
+             o_words := acted ws |}
+      end
   end.
 
 Definition mode_eqb (a b : mode) : bool :=
   match a, b with
   | MUsage, MUsage | MList, MList | MHelp, MHelp | MRun, MRun => true
+  | _, _ => false
+  end.
+Definition omode_eqb (a b : omode) : bool :=
+  match a, b with
+  | ORejected, ORejected => true
+  | OMode x, OMode y => mode_eqb x y
   | _, _ => false
   end.
 Definition stream_eqb (a b : stream) : bool :=
@@ -84,9 +108,9 @@ Definition entry_eqb (a b : string * option string) : bool :=
   String.eqb (fst a) (fst b) && option_eqb String.eqb (snd a) (snd b).
 
 Definition obs_eqb (m o : obs) : bool :=
-  mode_eqb (o_mode m) (o_mode o) &&
+  omode_eqb (o_mode m) (o_mode o) &&
   match o_mode m with
-  | MRun =>
+  | OMode MRun =>
       if (o_timeout m <? 0)%Z then (o_timeout o <? 0)%Z     (* an expired context: the target body does not report *)
       else
         Bool.eqb (o_verbose_log m) (o_verbose_log o) && Bool.eqb (o_verbose m) (o_verbose o) &&
@@ -95,7 +119,8 @@ Definition obs_eqb (m o : obs) : bool :=
         String.eqb (o_cwd m) (o_cwd o) && String.eqb (o_build m) (o_build o) &&
         list_eqb entry_eqb (o_env m) (o_env o) &&
         option_eqb stream_eqb (o_stdin m) (o_stdin o) && option_eqb stream_eqb (o_stdout m) (o_stdout o) &&
-        option_eqb stream_eqb (o_stderr m) (o_stderr o)
+        option_eqb stream_eqb (o_stderr m) (o_stderr o) &&
+        list_eqb String.eqb (o_words m) (o_words o)
   | _ => true
   end.
 
@@ -106,3 +131,38 @@ Definition check (c : case) : option (bool * obs) :=
   let m := model_obs c in
   if obs_eqb m (c_obs c) && bools_ok c then None else Some (bools_ok c, m).
 Definition mismatches (l : list case) := mism_from check 0 l.
+
+(* ---------------------------------------------------------------- the flag package against the real one *)
+Inductive verdict := VOk | VHelp | VBad.
+Record pcase := {
+  p_front : bool;                        (* mage's flag set (17 flags) / the generated main's (4) *)
+  p_words : list string;
+  p_durs : list (string * option Z);     (* time.ParseDuration of every word and every "=value" *)
+  p_verdict : verdict;                   (* nil / flag.ErrHelp / another error *)
+  p_set : list (string * fval);          (* fs.Visit: the flags that were set, with their final values *)
+  p_rest : list string                   (* fs.Args(), when the verdict is nil *)
+}.
+
+Definition fval_eqb (a b : fval) : bool :=
+  match a, b with
+  | VB x, VB y => Bool.eqb x y
+  | VD x, VD y => Z.eqb x y
+  | VS x, VS y => String.eqb x y
+  | _, _ => false
+  end.
+
+Definition set_agrees (a : assigns) (set : list (string * fval)) : bool :=
+  forallb (fun nv => option_eqb fval_eqb (last_val (fst nv) a) (Some (snd nv))) set &&
+  forallb (fun nv => existsb (fun s => String.eqb (fst nv) (fst s)) set) a.
+
+Definition pcheck (c : pcase) : option pres :=
+  let parse_dur := fun s => match sassoc (p_durs c) s with Some r => r | None => None end in
+  let r := cl_parse parse_dur (if p_front c then front_spec else gen_spec) (p_words c) in
+  let ok := match r, p_verdict c with
+            | POk a rest, VOk => set_agrees a (p_set c) && list_eqb String.eqb rest (p_rest c)
+            | PHelp, VHelp => true
+            | PBad a, VBad => set_agrees a (p_set c)
+            | _, _ => false
+            end in
+  if ok then None else Some r.
+Definition pmismatches (l : list pcase) := mism_from pcheck 0 l.
